@@ -56,6 +56,8 @@ def width_of(e):
     if isinstance(e, ast.Call) and isinstance(e.func, ast.Name) and e.func.id in NUM_HELPERS:
         w = NUM_HELPERS[e.func.id]
         return (w, "num", False, [("num", 0, w, "")])
+    if isinstance(e, ast.Name) and e.id in LOCAL_STR:
+        return LOCAL_STR[e.id]
     if isinstance(e, ast.BinOp) and isinstance(e.op, ast.Add):
         l, r = width_of(e.left), width_of(e.right)
         if l[0] is None or r[0] is None:
@@ -66,6 +68,7 @@ def width_of(e):
 
 
 NUM_HELPERS = {}      # helper name -> fixed width of the string it returns (filled by helper_widths)
+LOCAL_STR = {}        # local name -> width_of() of the string expression last assigned to it (filled by records_of in statement order)
 
 
 def _fmt_e_width(fmt, e_digits):
@@ -138,9 +141,19 @@ def records_of(fn):
     recs = []
     section = None
 
+    LOCAL_STR.clear()
+
     def walk(stmts, cur, pos):
         nonlocal section
         for s in stmts:
+            if isinstance(s, ast.Assign) and len(s.targets) == 1 and isinstance(s.targets[0], ast.Name):
+                # a record fragment kept in a local (`colfield = 4*' ' + varname[:8].rjust(8)`)
+                wv = width_of(s.value)
+                if wv[0] is not None and wv[1] != "num!":
+                    LOCAL_STR[s.targets[0].id] = wv
+                else:
+                    LOCAL_STR.pop(s.targets[0].id, None)
+                continue
             if isinstance(s, ast.Expr) and isinstance(s.value, ast.Call) and pf.call_name(s.value) == "f.write" and s.value.args:
                 w, kind, nl, fields = width_of(s.value.args[0])
                 if w is None:
@@ -241,6 +254,9 @@ def mini_eval(e, env):
     raise Unknown(ast.dump(e)[:40])
 
 
+SYM = "\u00a7"      # marks a symbolic object (the row function) in the evaluator's environment
+
+
 def run_block(stmts, env, out):
     """interpret a block consisting of if/elif chains, constraint constructions
     `c = F <rel> E`, and assignments to bounds[..][k]; other statements are ignored"""
@@ -260,7 +276,11 @@ def run_block(stmts, env, out):
                 rhs = "?"
             rel = {ast.LtE: "<=", ast.GtE: ">=", ast.Eq: "=="}.get(type(c.ops[0]))
             if rel:
-                out.append((ast.unparse(c.left), rel, rhs))
+                left = ast.unparse(c.left)
+                # a local alias of the constrained object (`rowf = functions[l]`) stands for that object
+                if isinstance(c.left, ast.Name) and isinstance(env.get(c.left.id), str) and env[c.left.id].startswith(SYM):
+                    left = env[c.left.id][len(SYM):]
+                out.append((left, rel, rhs))
         elif isinstance(s, ast.Assign) and isinstance(s.targets[0], ast.Subscript):
             key = ast.unparse(s.targets[0])
             try:
@@ -279,6 +299,20 @@ def run_block(stmts, env, out):
                         env[t0.value.id][t0.slice.value] = val
                         env.pop(key, None)
             except Unknown:
+                pass
+        elif isinstance(s, ast.Assign) and len(s.targets) == 1 and isinstance(s.targets[0], ast.Tuple) \
+                and all(isinstance(x, ast.Name) for x in s.targets[0].elts):
+            # `rowf, rng = functions[l], ranges[l]` / `lb, ub = bnds`
+            names = [x.id for x in s.targets[0].elts]
+            try:
+                if isinstance(s.value, ast.Tuple) and len(s.value.elts) == len(names):
+                    vals = [mini_eval(v, env) for v in s.value.elts]
+                else:
+                    vals = list(mini_eval(s.value, env))
+                if len(vals) == len(names):
+                    for nm_, v_ in zip(names, vals):
+                        env[nm_] = v_
+            except (Unknown, TypeError):
                 pass
         elif isinstance(s, ast.Assign) and len(s.targets) == 1 and isinstance(s.targets[0], ast.Name):
             # local aliases of the inputs (`btype = s[1:3].strip()`, `bnd = bounds[collabel]`): lists are shared, not copied
@@ -471,7 +505,7 @@ def build(tier, repo):
         ("E", None): (0.0, 0.0), ("E", 0.0): (0.0, 0.0), ("E", 2.0): (0.0, 2.0), ("E", -2.0): (-2.0, 0.0),
     }
     for (rt, R), want in expected.items():
-        env = {tvar: rt, "ranges[l]": R, "l": "ROW"}
+        env = {tvar: rt, "ranges[l]": R, "l": "ROW", "functions[l]": SYM + "functions[l]"}
         out = []
         run_block(loop.body, env, out)
         got = interval(out, "functions[l]")
